@@ -51,7 +51,12 @@ def mix_case(draw, S=None):
 
 @st.composite
 def c13_case(draw):
-    mode = draw(st.sampled_from(['mask_ro', 'mask_ro', 'part', 'part', 'mix', 'mix', 'illegal']))
+    mode = draw(st.sampled_from(['mask_ro', 'mask_ro', 'part', 'part', 'mix', 'mix', 'illegal', 'static_rule']))
+    if mode == 'static_rule':
+        n = draw(st.integers(1, 3))
+        return {'mode': 'static_rule', 'n': n, 'c': [float(draw(st.integers(1, 3))) for _ in range(n)],
+                'lo': [float(draw(st.integers(-2, 2))) for _ in range(n)], 'when_rvar': draw(st.sampled_from(['never', 'before', 'after_ldr', 'after_use'])),
+                'use': draw(st.sampled_from(['mul', 'add', 'matmul', 'slice']))}
     if mode == 'mask_ro':
         c = draw(romodel.ro_case(exact_only=True, max_cons=3, families=['box', 'l1', 'linf', 'poly', 'l2', 'budget', 'budget']))
         if c['ny'] == 0:
@@ -252,6 +257,36 @@ class C13(Prop):
             return Outcome.fail('illegal_accepted:' + case['which'], 'illegal declaration %s was %s' % (case['which'], msg), labels)
         if mode == 'mix':
             return self.check_mix(case, labels)
+        if mode == 'static_rule':
+            # a decision rule that never adapts is an ordinary decision: declared before / after / without random variables
+            from rsome import ro
+            n, cc, lo = case['n'], np.array(case['c']), np.array(case['lo'])
+            labels.append('rvar:' + case['when_rvar'])
+            try:
+                m = ro.Model()
+                z = m.rvar(2) if case['when_rvar'] == 'before' else None
+                y = m.ldr(n)
+                if case['when_rvar'] == 'after_ldr':
+                    z = m.rvar(2)
+                e = {'mul': lambda: y * cc, 'add': lambda: y + cc, 'matmul': lambda: np.diag(cc) @ y, 'slice': lambda: y[:n] * 1.0}[case['use']]()
+                if case['when_rvar'] == 'after_use':
+                    z = m.rvar(2)
+                m.min(cc @ y)
+                m.st(y >= lo, e >= lo - 5.0)
+                if z is not None:
+                    m.st((y[0] + z.sum() >= lo[0] - 2).forall(abs(z) <= 1))
+                with quiet():
+                    m.solve(display=False)
+                val = m.get()
+            except Exception as ex:
+                return Outcome.fail('static_rule:raises:' + type(ex).__name__, 'a model with a never-adapted ldr() (random variables declared: %s) raises %r' % (case['when_rvar'], ex), labels)
+            want = float(cc @ lo) if z is None else float(cc @ lo + cc[0] * 0.0)
+            if z is not None:
+                # y[0] >= lo[0] - 2 + 2 = lo[0] at the worst case z = (-1, -1): not binding beyond y >= lo
+                pass
+            if abs(val - want) > 1e-6 * (1 + abs(want)):
+                return Outcome.fail('static_rule:value', 'optimum %.9g, expected %.9g' % (val, want), labels)
+            return Outcome.ok(True, labels)
         if mode == 'mask_ro':
             c = case['ro']
             m, h = romodel.build(c)
